@@ -159,6 +159,42 @@ class ExtractTemp(ast.NodeTransformer):
         return out
 
 
+class ExplainCondition(ast.NodeTransformer):
+    """if <test>: ...  ->  cond_tmp = <test>; if cond_tmp: ...   (for `a and b` / `a or b` only the first operand moves, so
+    short-circuit evaluation is kept; an `elif` becomes `else:` + the two statements)"""
+
+    def __init__(self):
+        self.n = 0
+
+    def visit_FunctionDef(self, node):
+        self.generic_visit(node)
+        node.body = self._rewrite(node.body)
+        return node
+
+    def _rewrite(self, stmts):
+        out = []
+        for st in stmts:
+            for fld in ("body", "orelse", "finalbody"):
+                if hasattr(st, fld) and isinstance(getattr(st, fld), list) and not isinstance(st, (ast.FunctionDef, ast.ClassDef)):
+                    setattr(st, fld, self._rewrite(getattr(st, fld)))
+            if isinstance(st, ast.Try):
+                for h in st.handlers:
+                    h.body = self._rewrite(h.body)
+            if isinstance(st, ast.If) and not any(isinstance(n, (ast.Yield, ast.YieldFrom, ast.NamedExpr, ast.Await)) for n in ast.walk(st.test)) \
+                    and not isinstance(st.test, (ast.Name, ast.Constant)):
+                self.n += 1
+                name = f"cond_tmp{self.n}"
+                if isinstance(st.test, ast.BoolOp):
+                    moved = st.test.values[0]
+                    st.test.values[0] = ast.copy_location(ast.Name(id=name, ctx=ast.Load()), moved)
+                else:
+                    moved = st.test
+                    st.test = ast.copy_location(ast.Name(id=name, ctx=ast.Load()), moved)
+                out.append(ast.copy_location(ast.Assign(targets=[ast.Name(id=name, ctx=ast.Store())], value=moved), st))
+            out.append(st)
+        return out
+
+
 class IfExpToIf(ast.NodeTransformer):
     """x = a if c else b  ->  if c: x = a else: x = b ;   return a if c else b  ->  if c: return a else: return b
     (single-target assignments and returns/yield statements whose value is a conditional expression)"""
@@ -340,6 +376,7 @@ TRANSFORMS: Dict[str, Callable[[], ast.NodeTransformer]] = {
     "while-true-break": WhileTrueBreak,
     "comprehension-to-loop": CompToLoop,
     "ifexp-to-if": IfExpToIf,
+    "explain-condition": ExplainCondition,
     "rename-private": RenamePrivate,
     "rename-private-opaque": RenamePrivateOpaque,
     "insert-logging": InsertLogging,
